@@ -254,6 +254,7 @@ _PEQ = re.compile(r"^<.* as std::cmp::PartialEq(<.*>)?>::(eq|ne)$")
 _PORD = re.compile(r"^<.* as std::cmp::PartialOrd(<.*>)?>::(lt|le|gt|ge)$")
 _IS_SOME = re.compile(r"^std::option::Option::<.*>::(is_some|is_none)$")
 _IS_OK = re.compile(r"^std::result::Result::<.*>::(is_ok|is_err)$")
+_SAT = re.compile(r"^(?:core|std)::num::<impl (?:usize|u32|u64|isize|i32|i64)>::(?:saturating|wrapping)_(add|mul|sub)$")
 _TRY_BRANCH = re.compile(r"^<std::(option::Option|result::Result)<.*> as std::ops::Try>::branch$")
 _FROM_RESIDUAL = re.compile(r"^<std::(option::Option|result::Result)<.*> as std::ops::FromResidual<.*>>::from_residual$")
 
@@ -308,6 +309,12 @@ def norm_call(res_inst, res, args, fn=None):
         v = pred_on(p.split("::")[-1], args[0][2])
         if v is not None:
             return TRUE if v else FALSE
+    m = _SAT.match(p)
+    if m and len(args) == 2:
+        op = m.group(1)
+        if op in ("add", "mul"):
+            return mk_comm(op, args[0], args[1])
+        return ("satsub", args[0], args[1])
     if _TRY_BRANCH.match(p):
         return ("try", args[0])
     if _FROM_RESIDUAL.match(p):
